@@ -188,3 +188,200 @@ Definition l1_case (c : (pyval -> schema) * pyval * list (pyval * outcome pyval)
 def l1_term(rec):
     return '(Schemas.gen_schema_%s, %s, %s, %s, %s)' % (
         rec['cls'], rec['dc'], percentage_table(rec['tol'] + ['0.01%', '5%']), rec['in'], rec['out'])
+
+
+# ------------------------------------------------------------------------------------------------
+# level 0 (kwargs/dict selection + registered defaults) and level 2 (cross-option rules) recorders
+# ------------------------------------------------------------------------------------------------
+class FullRecorder(Recorder):
+    """records, besides validate_config: ObjectWithSchema.__init__ (use_config), MathMixin.validate_math_config,
+    ListGrader.__init__ and SingleListGrader.__init__ -- all by wrapping at run time"""
+
+    def __init__(self, world):
+        super().__init__(world)
+        self.l0, self.math, self.lists, self.slists = [], [], [], []
+        self.conv_for = {}
+        self.l1_of = {}
+        self.item_done = set()
+
+    def take_all(self):
+        out = {'l1': self.records, 'l0': self.l0, 'math': self.math, 'list': self.lists, 'slist': self.slists}
+        self.records, self.l0, self.math, self.lists, self.slists = [], [], [], [], []
+        self.conv_for, self.l1_of, self.item_done = {}, {}, set()
+        return out
+
+    @contextlib.contextmanager
+    def recording(self):
+        from mitxgraders.baseclasses import ObjectWithSchema, ItemGrader
+        from mitxgraders.helpers.math_helpers import MathMixin
+        from mitxgraders.listgrader import ListGrader, SingleListGrader
+        rec = self
+        o_init, o_val = ObjectWithSchema.__init__, ObjectWithSchema.validate_config
+        o_math, o_list, o_slist, o_item = (MathMixin.validate_math_config, ListGrader.__init__,
+                                           SingleListGrader.__init__, ItemGrader.__init__)
+
+        def w_val(obj, config):
+            conv = rec.conv_for.get(id(obj)) or Conv(rec.world)
+            try:
+                tol = [config.get('tolerance')] if type(config) is dict else []
+                entry = {'cls': type(obj).__name__, 'conv': conv, 'in': conv.conv(config),
+                         'dc': conv.conv(getattr(obj, 'default_comparer', None)), 'tol': tol}
+            except Skip:
+                entry = None
+            try:
+                out = o_val(obj, config)
+            except BaseException as e:
+                if entry is not None:
+                    entry['out'] = '(OExc %s)' % exc_class(e)
+                    rec.records.append(entry)
+                    rec.l1_of[id(obj)] = entry
+                raise
+            if entry is not None:
+                try:
+                    entry['out'] = '(ORet %s)' % conv.conv(out)
+                    entry['out_pv'] = conv.conv(out)
+                    entry['out_copy'] = ObjectWithSchema.coerce2unicode(out)
+                    rec.records.append(entry)
+                    rec.l1_of[id(obj)] = entry
+                except Skip:
+                    pass
+            return out
+
+        def w_init(obj, config=None, **kwargs):
+            conv = Conv(rec.world)
+            rec.conv_for[id(obj)] = conv
+            rec.l1_of.pop(id(obj), None)
+            entry = None
+            try:
+                chain, c = [], type(obj)
+                while True:
+                    chain.append(c.default_values)
+                    if c is ObjectWithSchema:
+                        break
+                    c = c.__bases__[0]
+                chain.reverse()
+                chain_t = g_list([conv.conv(d)[len('(PDict '):-1] for d in chain if d is not None])
+                entry = {'cls': type(obj).__name__, 'chain': chain_t,
+                         'config': 'None' if config is None else '(Some %s)' % conv.conv(config),
+                         'kwargs': conv.conv(kwargs)[len('(PDict '):-1]}
+            except Skip:
+                entry = None
+            try:
+                return o_init(obj, config, **kwargs)
+            finally:
+                l1 = rec.l1_of.get(id(obj))
+                if entry is not None and l1 is not None:
+                    entry['use'] = l1['in']
+                    rec.l0.append(entry)
+
+        def w_item(obj, config=None, **kwargs):
+            rec.item_done.discard(id(obj))
+            r = o_item(obj, config, **kwargs)
+            rec.item_done.add(id(obj))
+            return r
+
+        def w_math(obj):
+            conv = Conv(rec.world)
+            try:
+                entry = {'cls': type(obj).__name__, 'in': conv.conv(obj.config),
+                         'dfuncs': g_list([conv.conv(k) for k in obj.default_functions]),
+                         'dvars': g_list([conv.conv(k) for k in obj.default_variables])}
+            except Skip:
+                entry = None
+            try:
+                o_math(obj)
+            except BaseException as e:
+                if entry is not None:
+                    entry['out'] = '(OExc %s)' % exc_class(e)
+                    rec.math.append(entry)
+                raise
+            if entry is not None:
+                try:
+                    entry['out'] = '(ORet %s)' % conv.conv(obj.config)
+                    rec.math.append(entry)
+                except Skip:
+                    pass
+
+        def norm_of(cfg):
+            """what running every answer through its subgrader produces (the oracle of list_rules)"""
+            answers, subs = cfg['answers'], cfg['subgraders']
+            tup = (answers,) if isinstance(answers, list) else answers
+            for al in tup:
+                for idx, a in enumerate(al):
+                    sub = subs[idx] if isinstance(subs, list) else subs
+                    al[idx] = sub.post_schema_ans_val(sub.schema_answers(a))
+            return tup
+
+        def w_list(obj, config=None, **kwargs):
+            try:
+                o_list(obj, config, **kwargs)
+                failed = None
+            except BaseException as e:
+                failed = e
+            l1 = rec.l1_of.get(id(obj))
+            if l1 is not None and 'out_pv' in l1 and type(obj) is ListGrader:
+                conv = l1['conv']
+                try:
+                    try:
+                        norm = '(Ret %s)' % conv.conv(norm_of(l1['out_copy']))
+                    except Skip:
+                        raise
+                    except BaseException as e:
+                        norm = '(Raise %s)' % exc_class(e)
+                    out = '(OExc %s)' % exc_class(failed) if failed is not None else '(ORet %s)' % conv.conv(obj.config)
+                    rec.lists.append({'cls': 'ListGrader', 'in': l1['out_pv'], 'norm': norm, 'out': out})
+                except Skip:
+                    pass
+            if failed is not None:
+                raise failed
+
+        def w_slist(obj, config=None, **kwargs):
+            try:
+                o_slist(obj, config, **kwargs)
+                failed = None
+            except BaseException as e:
+                failed = e
+            if id(obj) in rec.item_done and 'config' in obj.__dict__:
+                conv = Conv(rec.world)
+                try:
+                    cfg = conv.conv(obj.config)
+                    out = '(OExc %s)' % exc_class(failed) if failed is not None else '(ORet %s)' % cfg
+                    rec.slists.append({'cls': type(obj).__name__, 'in': cfg, 'out': out})
+                except Skip:
+                    pass
+            if failed is not None:
+                raise failed
+
+        ObjectWithSchema.__init__, ObjectWithSchema.validate_config = w_init, w_val
+        MathMixin.validate_math_config, ListGrader.__init__ = w_math, w_list
+        SingleListGrader.__init__, ItemGrader.__init__ = w_slist, w_item
+        try:
+            yield self
+        finally:
+            ObjectWithSchema.__init__, ObjectWithSchema.validate_config = o_init, o_val
+            MathMixin.validate_math_config, ListGrader.__init__ = o_math, o_list
+            SingleListGrader.__init__, ItemGrader.__init__ = o_slist, o_item
+
+
+L2_DEFS = r'''
+Definition l0_case (c : list (list (pyval * pyval)) * option pyval * list (pyval * pyval) * pyval) : bool :=
+  match c with (chain, config, kwargs, used) => py_eqb (use_config chain config kwargs) used end.
+Definition obs_agree (r : outcome pyval) (o : obs) : bool :=
+  match r, o with
+  | Ret v, ORet v' => py_eqb v v'
+  | Raise e, OExc e' => exc_eqb e e'
+  | _, _ => false
+  end.
+Definition math_case (c : list pyval * list pyval * pyval * obs) : bool :=
+  match c with
+  | (dfuncs, dvars, cfg, o) =>
+      obs_agree (math_rules no_orc dfuncs dvars (Schemas.gen_sample_from_default PNone)
+                            (Schemas.gen_sample_from_value PNone) cfg) o
+  end.
+Definition list_case (c : Z * pyval * outcome pyval * obs) : bool :=
+  match c with (cl, cfg, norm, o) => obs_agree (list_rules cl cfg norm) o end.
+Definition slist_case (c : Z * pyval * obs) : bool :=
+  match c with (cl, cfg, o) => obs_agree (single_list_rules cl cfg) o end.
+'''
+L2_HEADER = L1_HEADER.replace('From Verif.Model Require Import Result Schema.',
+                              'From Verif.Model Require Import Result Schema SchemaInit.')
